@@ -260,3 +260,103 @@ func RAtomMerge(c *core.Ctx) {
 		c.Anchor("statements growing <loop>.M in reduceConcatenationWithAdjacentLoops")
 	}
 }
+
+// ---------------------------------------------------------------------------
+// R-GROWCMP: grow-before-store compares with >=.
+//   if depth >= len(stack) { stack = grow(stack) } ; stack[depth] = v
+// With `>` the store at depth == len(stack) is out of range.
+// ---------------------------------------------------------------------------
+
+func RGrowCmp(c *core.Ctx) {
+	c.Rule("R-GROWCMP", "wherever a function compares an index value x with len(T) of a field-held slice and also indexes T[x], the comparison treats x == len(T) as out of range (x >= len(T) / x < len(T)); `x > len(T)` lets the index equal to the length through", 2)
+	p := c.P
+	n := 0
+	for _, fn := range p.ModuleFuncs() {
+		name := core.SSAName(fn)
+		cnt := 0
+		for _, b := range fn.Blocks {
+			for _, ins := range b.Instrs {
+				bin, ok := ins.(*ssa.BinOp)
+				if !ok {
+					continue
+				}
+				x, y, op := bin.X, bin.Y, bin.Op
+				lenOf := func(v ssa.Value) *types.Var {
+					call, ok := v.(*ssa.Call)
+					if !ok {
+						return nil
+					}
+					if bi, ok := call.Call.Value.(*ssa.Builtin); !ok || bi.Name() != "len" {
+						return nil
+					}
+					if ld, ok := call.Call.Args[0].(*ssa.UnOp); ok {
+						return core.FieldVarOfAddr(ld.X)
+					}
+					return nil
+				}
+				f := lenOf(y)
+				if f == nil {
+					if f = lenOf(x); f == nil {
+						continue
+					}
+					x, y = y, x
+					switch op {
+					case token.LSS:
+						op = token.GTR
+					case token.GTR:
+						op = token.LSS
+					case token.LEQ:
+						op = token.GEQ
+					case token.GEQ:
+						op = token.LEQ
+					}
+				}
+				if op != token.LSS && op != token.GTR && op != token.LEQ && op != token.GEQ {
+					continue
+				}
+				// is T[x] indexed in this function?
+				indexed := false
+				for _, b2 := range fn.Blocks {
+					for _, i2 := range b2.Instrs {
+						ia, ok := i2.(*ssa.IndexAddr)
+						if !ok {
+							continue
+						}
+						ld, ok := ia.X.(*ssa.UnOp)
+						if !ok || core.FieldVarOfAddr(ld.X) != f {
+							continue
+						}
+						if core.SameValue(ia.Index, x) || sameFieldLoad(ia.Index, x) {
+							indexed = true
+						}
+					}
+				}
+				if !indexed {
+					continue
+				}
+				cnt++
+				n++
+				c.Visit(name)
+				c.Check(op == token.GEQ || op == token.LSS, fmt.Sprintf("%s / bound test #%d on %s excludes the index equal to the length", name, cnt, f.Name()), bin.Pos(),
+					"`index %s len(%s)` is used although %s[index] is accessed: when the index equals the length the access is out of range", op, f.Name(), f.Name())
+			}
+		}
+	}
+	if n == 0 {
+		c.Anchor("a comparison of an index with len(T) in a function that accesses T[index]")
+	}
+}
+
+// sameFieldLoad: both values are loads of the same field of the same base
+// object (the field may have been re-read; a depth counter is not modified
+// between its bound test and its use as an index in the shapes considered).
+func sameFieldLoad(a, b ssa.Value) bool {
+	la, ok1 := a.(*ssa.UnOp)
+	lb, ok2 := b.(*ssa.UnOp)
+	if !ok1 || !ok2 || la.Op != token.MUL || lb.Op != token.MUL {
+		return false
+	}
+	fa, ok1 := la.X.(*ssa.FieldAddr)
+	fb, ok2 := lb.X.(*ssa.FieldAddr)
+	return ok1 && ok2 && fa.Field == fb.Field && (fa.X == fb.X || core.SameValue(fa.X, fb.X))
+}
